@@ -355,6 +355,9 @@ def edits_menu(root):
     ext = next((n.findtext("name") for n, d in nodes if any(a.findtext("name") == "extensionAllowed"
                                                             for a in n.findall("attribute"))), names[0])
     parent_classes = {"root": None, "top": names[0], "deep": deep, "extension-subtree": ext, "leaf": leaf_names[0]}
+    with_hash = next((nm for nm in names if nm in has_hash), None)
+    if with_hash:
+        parent_classes["after-placeholder"] = with_hash       # the new node becomes a sibling listed after a '#' child
     if lib:
         del parent_classes["root"]      # a new top-level library node needs no standard parent; covered by add-rooted
     unit_classes = [d.findtext("name") for d in root.iter("unitClassDefinition")]
@@ -409,6 +412,13 @@ def edits_menu(root):
             p = add_node(find(rt, names[0]), "Zq-valued-plain", "takes a value", {}, lib)
             add_node(p, "#", "the value", {"valueClass": [value_classes[0]]}, lib)
         menu.append(("add-value-taking-node:no-takesValue", add_value_plain))
+
+        # a value-taking node whose '#' child is followed by an ordinary child (the sibling listed after the placeholder)
+        def add_value_then_sibling(rt):
+            p = add_node(find(rt, names[0]), "Zq-valued-sib", "takes a value and has a child", {}, lib)
+            add_node(p, "#", "the value", {"takesValue": [], "valueClass": [value_classes[0]]}, lib)
+            add_node(p, "Zq-after-placeholder", "listed after the placeholder", {}, lib)
+        menu.append(("add-value-taking-node:then-sibling", add_value_then_sibling))
     removable = [x for x in leaf_names if x not in referenced(root)][-3:]
     for nm in removable[:2]:
         def remove_leaf(rt, nm=nm):
